@@ -40,13 +40,13 @@ VEC_IMPORTS = ["GoldilocksVerif.Isa.X86", "GoldilocksVerif.Isa.Avx2", "Goldilock
                "GoldilocksVerif.Model.Region", "GoldilocksVerif.Gen.VecConsts", "GoldilocksVerif.Gen.Scalar"]
 
 MODULES += [
-    {"name": "Avx2", "ns": "Gen.Avx2", "imports": VEC_IMPORTS, "needs_globals": True,
+    {"name": "Avx2", "reg_alias": True, "ns": "Gen.Avx2", "imports": VEC_IMPORTS, "needs_globals": True,
      "roots": [("Goldilocks", n) for n in AVX2_KERNELS], "filter": _kernel256},
-    {"name": "Avx512", "ns": "Gen.Avx512", "imports": VEC_IMPORTS, "needs_globals": True,
+    {"name": "Avx512", "reg_alias": True, "ns": "Gen.Avx512", "imports": VEC_IMPORTS, "needs_globals": True,
      "roots": [("Goldilocks", n) for n in AVX512_KERNELS], "filter": _kernel512},
-    {"name": "Avx2Mat", "ns": "Gen.Avx2Mat", "imports": VEC_IMPORTS + ["GoldilocksVerif.Gen.Avx2"], "needs_globals": True,
+    {"name": "Avx2Mat", "reg_alias": True, "ns": "Gen.Avx2Mat", "imports": VEC_IMPORTS + ["GoldilocksVerif.Gen.Avx2"], "needs_globals": True,
      "roots": [("Goldilocks", n) for n in AVX2_MAT], "filter": _kernel256},
-    {"name": "Avx512Mat", "ns": "Gen.Avx512Mat", "imports": VEC_IMPORTS + ["GoldilocksVerif.Gen.Avx512"], "needs_globals": True,
+    {"name": "Avx512Mat", "reg_alias": True, "ns": "Gen.Avx512Mat", "imports": VEC_IMPORTS + ["GoldilocksVerif.Gen.Avx512"], "needs_globals": True,
      "roots": [("Goldilocks", n) for n in AVX512_MAT], "filter": _kernel512},
 ]
 
